@@ -45,11 +45,15 @@ def freshResultQ (q : Ref → QKind → List Ref) (fdpt : Nat → List Nat)
      | "sci" => descIntact
      | "syntaxSci" => descIntact
      | "packageSci" => descIntact
+     | "optA" => descIntact
+     | "optB" => descIntact
      | _ => [])
   | [5, i], some f =>
     (match f.enums[i]?, acc with
      | some e, "values" => childRefs r.file r.path 2 e.values.length
      | some _, "desc" => descIntact
+     | some _, "optA" => descIntact
+     | some _, "optB" => descIntact
      | some _, "edpts" => sortRefs (q r .enumDependents)
      | some _, "walk" => (walkModel [] w r false).trace.map (·.1)
      | _, _ => [])
@@ -60,6 +64,8 @@ def freshResultQ (q : Ref → QKind → List Ref) (fdpt : Nat → List Nat)
      | some _, "walk" => (walkModel [] w r false).trace.map (·.1)
      | some _, "walkfail" => halfWalk w r
      | some _, "desc" => descIntact
+     | some _, "optA" => descIntact
+     | some _, "optB" => descIntact
      | _, _ => [])
   | _, some f =>
     match w.msgAt r with
@@ -84,6 +90,8 @@ def freshResultQ (q : Ref → QKind → List Ref) (fdpt : Nat → List Nat)
        | "walk" => if h.mapEntry then [] else (walkModel [] w r false).trace.map (·.1)
        | "walkfail" => if h.mapEntry then [] else halfWalk w r
        | "desc" => descIntact
+       | "optA" => descIntact      -- Extension(): a custom option is reported exactly when the request carries it
+       | "optB" => descIntact
        | _ => [])
     | none =>
       -- nested enum
@@ -94,6 +102,8 @@ def freshResultQ (q : Ref → QKind → List Ref) (fdpt : Nat → List Nat)
            | some e, "values" => childRefs r.file r.path 2 e.values.length
            | some _, "edpts" => sortRefs (q r .enumDependents)
            | some _, "desc" => descIntact
+           | some _, "optA" => descIntact
+           | some _, "optB" => descIntact
            | _, _ => [])
          | none => [])
       | _ => []
